@@ -1,11 +1,11 @@
 from pyvc import runner
-from contracts import codecs
+from contracts import codecs, partial
 
 PID = 'C09'
 
 
 def items():
-    return [c for c in codecs.CONTRACTS if PID in c.props]
+    return [c for c in codecs.CONTRACTS if PID in c.props] + (partial.scenarios() if partial.ENABLED else [])
 
 
 def run(tier='quick', seed=0, only=None):
